@@ -22,8 +22,11 @@
    panic and the formatted text lexes, without lexical error, to the same non-comment tokens - kinds and literal values, in
    order (C09_tokens_any, C09_document_any); its structure is that of [kept p], the program with the comments where the
    printer puts them (C09_structure_any; which comments are lost is C10's business).
+   Section 8 does the same for the diagnostics: for EVERY valid program (comments anywhere, WELL-TYPED OR NOT) the formatted
+   text is analysed to the same diagnostic MESSAGES in the same order (C09_same_messages_any).
    STATED, NOT PROVED: the second half of C09_full_statement (`syntactically_valid out` as a statement about
-   [program_clean]) for programs with comments, and "same diagnostics" for programs with comments. *)
+   [program_clean]) for programs with comments, and - for programs with comments - that the RANGE of every diagnostic covers
+   the same non-comment tokens (C09_same_ranges_statement; checked on an instance, C09_same_messages_any_ex). *)
 From Coq Require Import String.
 From Spl Require Import Model.Format Model.Lexer Proofs.FormatProofs.
 From Spl Require Model.Doc.
@@ -632,4 +635,96 @@ Proof.
   assert (H5 : map tk toks = flatten c09_aprog ++ [Eof]) by (vm_compute in El; injection El as <-; vm_compute; reflexivity).
   destruct (C09_document_any c09_aprog c09_adoc toks ins ts H1 H3 El H5) as (txt & toks' & E1 & E2 & E3 & E4).
   exists txt, toks'. repeat split; assumption.
+Qed.
+
+(* ================================================================================================
+   8. "... and which produces the same diagnostics", with comments ANYWHERE (Proofs/FormatDiag*.v)
+
+   The formatted text of a layout of p is a layout of [kept p] with canonical comment texts (section 7), so by the C04 round
+   trip the two documents are parsed to the trees mandated for p and for that program.  Their token INDICES differ (comments
+   were dropped or moved), so the trees differ in every range and offset, and in the doc comments.  But table build and
+   semantic analysis read names, literal values, operators and structure only: ranges, offsets and doc comments are merely
+   copied (into error ranges and table entries) - [er_*] of Proofs/FormatDiagErase.v forgets exactly these, the analysis of
+   every construct commutes with it (FormatDiagErase.v, FormatDiagSem.v), and the two trees have the same erasure
+   declaration by declaration (FormatDiagAny.v).  The one comparison of ranges in `analyze` (is this declaration the one that
+   made the table entry of its name ?) has the same outcome because the declaration ranges of the two trees correspond one to
+   one (FormatDiagTop.v).  Hence: the same diagnostic messages, in the same order - for every valid program, WELL-TYPED OR NOT.
+   Not proved: the statement about the RANGES below (the analysis copies ranges, so it needs the same development with
+   "token range -> range of non-comment ordinals" in place of erasure, plus the fact that an identifier's range ends at the
+   identifier token); it holds on the instance. *)
+From Spl Require Proofs.FormatDiagAny.
+
+Theorem C09_same_messages_any : forall p doc toks ins ts,
+  prog_ok p = true -> aprog_valid p = true -> lex doc = Some toks -> map tk toks = flatten p ++ [Eof] ->
+  exists txt d d',
+    formatted_text doc ins ts = Done txt /\
+    Errors.new_doc_res doc = Errors.ODone d /\ Errors.new_doc_res txt = Errors.ODone d' /\
+    map e_m (Errors.tree_errors (Errors.d_ast d')) = map e_m (Errors.tree_errors (Errors.d_ast d)) /\
+    forall l, Errors.doc_errors_res d = Table.ROk l -> exists l', Errors.doc_errors_res d' = Table.ROk l' /\ map snd l' = map snd l.
+Proof. exact FormatDiagAny.same_messages_any. Qed.
+Print Assumptions C09_same_messages_any.
+
+(* the number of non-comment tokens in front of token index n *)
+Definition c09_ord (ks : list kind) (n : nat) : nat := length (code (firstn n ks)).
+
+(* stated, not proved: corresponding diagnostics cover the same non-comment tokens *)
+Definition C09_same_ranges_statement : Prop :=
+  forall p doc toks ins ts,
+    prog_ok p = true -> aprog_valid p = true -> lex doc = Some toks -> map tk toks = flatten p ++ [Eof] ->
+    exists txt d d',
+      formatted_text doc ins ts = Done txt /\ Errors.new_doc_res doc = Errors.ODone d /\ Errors.new_doc_res txt = Errors.ODone d' /\
+      Forall2 (fun x x' => e_m x' = e_m x /\ c09_ord (flatten (kept p)) (e_s x') = c09_ord (flatten p) (e_s x)
+                           /\ c09_ord (flatten (kept p)) (e_e x') = c09_ord (flatten p) (e_e x))
+              (Errors.tree_errors (Errors.d_ast d)) (Errors.tree_errors (Errors.d_ast d')).
+
+(* proc f(){// a<LF>x// b<LF>:=1 ;if(// c<LF>y){}}  - `x`, `y` undeclared, `main` missing; a, b are hoisted, c is lost *)
+Definition c09_bad_aprog : aprog :=
+  {| a_decls := [DProc [] [] (str "f") [] None [] [] []
+       (SCons (SAsg (AName [str " a"] (str "x")) [str " b"] (c09_f (FLit [] (LDec 1))) [])
+       (SCons (SIfT [] [] (c09_f (FVar (AName [str " c"] (str "y")))) [] (SBlk [] SNil [])) SNil)) []];
+     a_ceof := [] |}.
+Definition c09_bad_adoc : text := str "proc f(){// a" ++ [10] ++ str "x// b" ++ [10] ++ str ":=1 ;if(// c" ++ [10] ++ str "y){}}".
+
+Example C09_same_messages_any_ex :
+  aprog_valid c09_bad_aprog = true /\ prog_ok c09_bad_aprog = true
+  /\ match lex c09_bad_adoc with Some toks => map tk toks = flatten c09_bad_aprog ++ [Eof] | None => False end
+  /\ match Errors.new_doc_res c09_bad_adoc, formatted_text c09_bad_adoc true 2 with
+     | Errors.ODone d, Done txt =>
+         match Errors.new_doc_res txt with
+         | Errors.ODone d' =>
+             let ea := Errors.tree_errors (Errors.d_ast d) in
+             let eb := Errors.tree_errors (Errors.d_ast d') in
+             txt = str "proc f() {" ++ [10] ++ str "  // a" ++ [10] ++ str "  // b" ++ [10] ++ str "  x := 1;" ++ [10]
+                   ++ str "  if (y) {}" ++ [10] ++ str "}" ++ [10]
+             /\ map e_m eb = map e_m ea /\ length ea = 3%nat
+             (* the token-index ranges differ ... *)
+             /\ map (fun x => (e_s x, e_e x)) ea = [(0, 0); (6, 7); (14, 15)]%nat
+             /\ map (fun x => (e_s x, e_e x)) eb = [(0, 0); (7, 8); (13, 14)]%nat
+             (* ... but cover the same non-comment tokens *)
+             /\ map (fun x => (c09_ord (flatten c09_bad_aprog) (e_s x), c09_ord (flatten c09_bad_aprog) (e_e x))) ea
+                = map (fun x => (c09_ord (flatten (kept c09_bad_aprog)) (e_s x), c09_ord (flatten (kept c09_bad_aprog)) (e_e x))) eb
+         | _ => False
+         end
+     | _, _ => False
+     end.
+Proof. vm_compute. repeat split; reflexivity. Qed.
+
+(* the instance obtained THROUGH the theorem *)
+Example C09_same_messages_any_thm_ex : forall ins ts,
+  exists txt d d' l l',
+    formatted_text c09_bad_adoc ins ts = Done txt /\ Errors.new_doc_res c09_bad_adoc = Errors.ODone d
+    /\ Errors.new_doc_res txt = Errors.ODone d' /\ Errors.doc_errors_res d = Table.ROk l /\ Errors.doc_errors_res d' = Table.ROk l'
+    /\ map snd l' = map snd l /\ length l = 3%nat.
+Proof.
+  intros ins ts. destruct (lex c09_bad_adoc) as [toks|] eqn:El; [|vm_compute in El; discriminate].
+  assert (H1 : prog_ok c09_bad_aprog = true) by (vm_compute; reflexivity).
+  assert (H3 : aprog_valid c09_bad_aprog = true) by (vm_compute; reflexivity).
+  assert (H5 : map tk toks = flatten c09_bad_aprog ++ [Eof]) by (vm_compute in El; injection El as <-; vm_compute; reflexivity).
+  destruct (C09_same_messages_any c09_bad_aprog c09_bad_adoc toks ins ts H1 H3 El H5) as (txt & d & d' & E1 & E2 & E3 & _ & E5).
+  destruct (Errors.doc_errors_res d) as [l|s] eqn:El0.
+  - destruct (E5 l eq_refl) as (l' & El' & Em). exists txt, d, d', l, l'. repeat split; try assumption.
+    assert (Ed : Errors.ODone d = Errors.new_doc_res c09_bad_adoc) by (symmetry; exact E2).
+    vm_compute in Ed. injection Ed as ->. vm_compute in El0. injection El0 as <-. reflexivity.
+  - exfalso. assert (Ed : Errors.ODone d = Errors.new_doc_res c09_bad_adoc) by (symmetry; exact E2).
+    vm_compute in Ed. injection Ed as ->. vm_compute in El0. discriminate El0.
 Qed.
